@@ -95,33 +95,54 @@ Qed.
 (* ---- head -------------------------------------------------------------------------------- *)
 
 Lemma head_drive n c xs p :
-  c <= n -> fst (drive (OHead n) (SCount c) xs End p) = (firstn (n - c) xs, End).
+  c < n -> fst (drive (OHead n) (SCount c) xs End p) = (firstn (n - c) xs, End).
 Proof.
   revert c p; induction xs as [|x xs IH]; intros c p Hc; cbn.
   - now rewrite firstn_nil.
-  - destruct (n <=? c) eqn:E; bool_to_prop.
-    + assert (n - c = 0) by lia. now rewrite H.
+  - destruct (n <=? S c) eqn:E; bool_to_prop; cbn.
+    + assert (n - c = 1) as -> by lia. reflexivity.
     + specialize (IH (S c) (S p) ltac:(lia)).
       destruct (drive (OHead n) (SCount (S c)) xs End (S p)) as [[o2 e2] n2]. cbn in *. inv IH.
       replace (n - c) with (S (n - S c)) by lia. reflexivity.
 Qed.
 
-Lemma head_spec n xs : run_op (OHead n) (xs, End) = (firstn n xs, End).
-Proof. unfold run_op; cbn [fst snd init_state]. rewrite head_drive by lia. now rewrite Nat.sub_0_r. Qed.
+Lemma head_spec n xs : 1 <= n -> run_op (OHead n) (xs, End) = (firstn n xs, End).
+Proof. intros Hn. unfold run_op; cbn [fst snd init_state]. rewrite head_drive by lia. now rewrite Nat.sub_0_r. Qed.
 
-(* head pulls at most n+1 elements whatever the length of the source *)
+(* once the n-th element has been delivered, whatever follows it - more elements, the end, or a failure of the
+   source - has no influence: it is never pulled *)
+Lemma head_drive_enough n c xs up p :
+  c < n -> n - c <= length xs -> fst (drive (OHead n) (SCount c) xs up p) = (firstn (n - c) xs, End).
+Proof.
+  revert c p; induction xs as [|x xs IH]; intros c p Hc Hl; cbn in Hl; [lia|]. cbn.
+  destruct (n <=? S c) eqn:E; bool_to_prop; cbn.
+  - assert (n - c = 1) as -> by lia. reflexivity.
+  - specialize (IH (S c) (S p) ltac:(lia) ltac:(lia)).
+    destruct (drive (OHead n) (SCount (S c)) xs up (S p)) as [[o2 e2] n2]. cbn in *. inv IH.
+    replace (n - c) with (S (n - S c)) by lia. reflexivity.
+Qed.
+
+Lemma head_ignores_rest n xs rest up :
+  1 <= n -> length xs = n -> run_op (OHead n) (xs ++ rest, up) = (xs, End).
+Proof.
+  intros Hn Hl. unfold run_op; cbn [fst snd init_state].
+  rewrite head_drive_enough by (rewrite ?app_length; lia).
+  rewrite Nat.sub_0_r, <- Hl, firstn_app, Nat.sub_diag, firstn_all. cbn. now rewrite app_nil_r.
+Qed.
+
+(* head pulls at most n elements whatever the length of the source *)
 Lemma head_pulls_drive n c xs up p :
-  c <= n -> snd (drive (OHead n) (SCount c) xs up p) <= p + (n - c) + 1.
+  c < n -> snd (drive (OHead n) (SCount c) xs up p) <= p + (n - c).
 Proof.
   revert c p; induction xs as [|x xs IH]; intros c p Hc; cbn.
   - destruct up; cbn; lia.
-  - destruct (n <=? c) eqn:E; bool_to_prop; cbn; [lia|].
+  - destruct (n <=? S c) eqn:E; bool_to_prop; cbn; [lia|].
     specialize (IH (S c) (S p) ltac:(lia)).
     destruct (drive (OHead n) (SCount (S c)) xs up (S p)) as [[o2 e2] n2]. cbn in *. lia.
 Qed.
 
-Lemma head_pulls n st : pulls_of (OHead n) st <= n + 1.
-Proof. unfold pulls_of; cbn [init_state]. pose proof (head_pulls_drive n 0 (fst st) (snd st) 0). lia. Qed.
+Lemma head_pulls n st : 1 <= n -> pulls_of (OHead n) st <= n.
+Proof. intros Hn. unfold pulls_of; cbn [init_state]. pose proof (head_pulls_drive n 0 (fst st) (snd st) 0). lia. Qed.
 
 (* ---- tail -------------------------------------------------------------------------------- *)
 
